@@ -676,9 +676,6 @@ func (e *Enc) initGhost(st *State, loc Val, t types.Type, depth int) {
 			if _, declared := e.P.CS.GhostFields[g]; !declared {
 				continue
 			}
-			if g == "rheld" && nt.Obj().Name() != "RWMutex" {
-				continue
-			}
 			if nt.Obj().Name() != "Mutex" && nt.Obj().Name() != "RWMutex" {
 				continue
 			}
